@@ -247,17 +247,80 @@ def sort_fields_loop(fields, required, required_2, optional, _it, _seq):
 
 
 # --------------------------------------------------------------------------------------------- module assembly (C19, C14, C12)
-@contract("json_to_models/models/base.py::_generate_code", props=["C12"], verify=False)
-class GenerateCodeRec:
-    """walks the structure; may rename models (class-name conversion) and may raise anything a generator raises"""
-    sorts = {"result": "tuple"}
+@specrec
+def nodes_ok(structure):
+    """a layout structure: a list of nodes {model, nested: <structure>}"""
+    return ty_is(structure, list) and forall(as_list(structure), lambda d: ty_is(d, dict) and "nested" in as_dict(d) and "model" in as_dict(d)
+                                               and nodes_ok(as_dict(d)["nested"]))
+
+
+@assumed("param:class_generator", props=["C12"])
+class ClassGeneratorCall:
+    """class_generator(model, **kwargs): builds the code generator of one model (one of the five generator classes or a user class);
+    may raise; the generator it returns is determined by the model and the options"""
+    sorts = {"result": "obj:GenericModelCodeGenerator"}
+    deterministic = True
     modifies = ["_name", "_name_generated", "__cache__"]
+
+    def raises(self, a0, a1, a2):
+        return {"*": True}
+
+
+@contract(GEN + ".generate", props=["C12", "C04"], verify=False, deterministic=True, covers_overrides=True)
+class GeneratorGenerate:
+    """(imports, class text) of one model with the given nested class texts (template rendering: bounded only)"""
+    sorts = {"result": "tuple", "nested_classes": "any"}
+    modifies = ["__cache__"]
+
+    def raises(self, nested_classes, bases, extra):
+        return {"*": True}
+
+    def ensures(self, nested_classes, bases, extra, result):
+        return {"pair": seq_len(result) == 2 and ty_is(at(result, 0), list) and ty_is(at(result, 1), str)}
+
+
+@contract("json_to_models/models/base.py::_generate_code", props=["C12"], deterministic=True)
+class GenerateCodeRec:
+    """C12 'each inferred model is emitted exactly once, each class placed inside the class that references it':
+    one class text per structure node, in order; node i is rendered by the generator built for ITS model, and receives exactly the
+    class texts of ITS OWN nested structure."""
+    sorts = {"structure": "list", "result": "tuple", "imports": "list", "classes": "list", "generators": "list",
+             "gen": "obj:GenericModelCodeGenerator", "nested_classes": "any", "class_generator_kwargs": "any", "lvl": "int", "data": "any"}
+    modifies = ["_name", "_name_generated", "__cache__"]
+
+    def requires(self, structure, class_generator, class_generator_kwargs, lvl):
+        return {"nodes": nodes_ok(structure)}
 
     def raises(self, structure, class_generator, class_generator_kwargs, lvl):
         return {"*": True}
 
     def ensures(self, structure, class_generator, class_generator_kwargs, lvl, result):
-        return {"pair": seq_len(result) == 2 and ty_is(at(result, 0), list) and ty_is(at(result, 1), list)}
+        classes = as_list(at(result, 1))
+        return {
+            "pair": seq_len(result) == 2 and ty_is(at(result, 0), list) and ty_is(at(result, 1), list),
+            "one_class_per_node": seq_len(classes) == seq_len(structure),
+            "node_rendered_with_its_own_children": forall(range(seq_len(structure)), lambda j: at(classes, j) is at(
+                GenericModelCodeGenerator.generate(ext("param:class_generator", class_generator, as_dict(at(structure, j))["model"], class_generator_kwargs),
+                                                   at(_generate_code(as_dict(at(structure, j))["nested"], class_generator, class_generator_kwargs, lvl + 1), 1)), 1)),
+        }
+
+
+@loop("json_to_models/models/base.py::_generate_code", 1)
+def generate_code_loop1(structure, class_generator, class_generator_kwargs, lvl, generators, imports, _it, _seq):
+    return {
+        "one_per_node": seq_len(generators) == _it and ty_is(generators, list) and ty_is(imports, list),
+        "paired_with_own_children": forall(range(_it), lambda j: seq_len(at(generators, j)) == 2
+                                           and at(at(generators, j), 0) is ext("param:class_generator", class_generator, as_dict(_seq[j])["model"], class_generator_kwargs)
+                                           and at(at(generators, j), 1) is at(_generate_code(as_dict(_seq[j])["nested"], class_generator, class_generator_kwargs, lvl + 1), 1)),
+    }
+
+
+@loop("json_to_models/models/base.py::_generate_code", 2)
+def generate_code_loop2(structure, classes, generators, imports, _it, _seq):
+    return {
+        "one_per_generator": seq_len(classes) == _it and ty_is(classes, list) and ty_is(imports, list),
+        "rendered": forall(range(_it), lambda j: at(classes, j) is at(GenericModelCodeGenerator.generate(at(_seq[j], 0), at(_seq[j], 1)), 1)),
+    }
 
 
 @contract("json_to_models/dynamic_typing/typing.py::compile_imports", props=["C03"], verify=False)
